@@ -31,8 +31,19 @@ def reaches(edges, a, b):
     return False
 
 
+OBS_SRC = '''
+import xdeps.tasks as _T
+def add_observers(m, r):
+    """side-effect-only tasks (no targets) on every location and on every nested container"""
+    refs = [r['a'], r['b'], r['c'], r['n'], r['n']['x'], r['n']['y'], r['n']['z'], r['l'], r['l'][0], r['l'][1], r['o'], r['o'].p, r['o'].q]
+    for rf in refs:
+        m.register(_T.FunctionTask(("watch", str(rf)), (lambda: None), set(), {rf}))
+'''
+exec(OBS_SRC)
+
 TRACE_TAIL = '''
 import xdeps.tasks as T
+add_observers(m, r)
 trace = []
 for cls in (T.ExprTask, T.FunctionTask, T.LinearKnob):
     def mk(orig):
@@ -74,6 +85,7 @@ def run(rac):
         alpha = [o for o in G.op_alphabet(small=True) if o[0] == "expr"]
         L = 3 if quick else 4
         rac.section("manager", f"managers built by every sequence of <= {L} expression definitions (of {len(alpha)}), "
+                    "plus side-effect-only observer tasks (no targets) on every location and nested container, "
                     "then every location assigned once; run trace == downstream closure of the declared graph, each once, "
                     "producers first unless the declared edge closes a cycle; non-trivial = at least one task ran",
                     f"<= {L} definitions x {len(G.LOCS)} assigned locations")
@@ -92,6 +104,7 @@ def run(rac):
                     try:
                         for o in ops:
                             w.apply(o)
+                        add_observers(w.m, w.r)
                         del trace[:]
                         ref = w.ref(loc)
                         w.apply(("val", loc, 6.5))
@@ -115,7 +128,7 @@ def run(rac):
                         rs = "r" + "".join(s if isinstance(s, str) and s.startswith(".") else f"[{s!r}]" for s in loc)
                         tail = TRACE_TAIL.replace("ASSIGN", f"{rs} = 6.5").replace("REF", rs)
                         rac.fail(f"manager {hist} assign {G.locstr(loc)}", f"C02 [{hist}] then {G.locstr(loc)} = 6.5: {bad}",
-                                 G.history_script(list(ops), tail), "Manager.set_value")
+                                 G.history_script(list(ops), OBS_SRC + tail), "Manager.set_value")
     finally:
         for cls, o in origs.items():
             cls.run = o
